@@ -43,13 +43,13 @@ def max_matching_size(nU, nV, adj):
 
 
 def instances(tier, seed):
-    shapes = [(1, 1), (1, 2), (2, 1), (2, 2), (2, 3), (3, 2), (3, 3)]
+    shapes = [(1, 1), (1, 2), (2, 1), (2, 2), (2, 3), (3, 2), (3, 3), (3, 4), (4, 3), (1, 6), (6, 1)]
     if tier == "thorough":
-        shapes += [(3, 4), (4, 3), (2, 5), (5, 2), (1, 6), (6, 1), (4, 4)]
+        shapes += [(2, 5), (5, 2), (2, 6), (6, 2), (4, 4)]
     out = []
     for nU, nV in shapes:
         for algo in ("Hungarian", "Hopcroft-Karp"):
-            if nU * nV >= 12 and algo == "Hopcroft-Karp" and (nU, nV) == (4, 4):
+            if nU * nV >= 12 and algo == "Hopcroft-Karp" and ((nU, nV) == (4, 4) or tier != "thorough"):
                 continue
             # split the big shapes on the first row's bits so that 16 workers share the work
             if nU * nV >= 9:
@@ -131,7 +131,7 @@ def main(tier, seed):
     return common.run_check(
         PROP, "checks.c20", tier, seed,
         explanation="The real bipartite_vertex_cover (incl. new_konig, max_bipartite_matching2, augment) is symbolically executed on graphs whose adjacency "
-                    "bits are solver variables: quick = all graphs with nU,nV <= 3 (both algorithms); thorough adds 3x4, 4x3, 2x5, 5x2, 1x6, 6x1 and 4x4 (Hungarian). "
+                    "bits are solver variables: quick = all graphs with nU,nV <= 3 and 1x6, 6x1 (both algorithms) and 3x4, 4x3 (Hungarian); thorough adds 3x4, 4x3 for Hopcroft-Karp, 2x5, 5x2, 2x6, 6x2 (both) and 4x4 (Hungarian). "
                     "For Hopcroft-Karp the SciPy matching is a contract stub returning every maximum matching the solver finds feasible. Each path ends in three "
                     "obligations (edge cover, |cover| = maximum matching by an independent exhaustive oracle, table lengths); an AssertionError inside the code on a "
                     "satisfiable path is a violation.",
